@@ -75,7 +75,11 @@ class libimp(object):
             return self.lib_imp2ad[libad][imp_ord_or_name]
         log.debug('new imp %s %s' % (imp_ord_or_name, dst_ad))
         ad = self.libbase2lastad[libad]
-        self.libbase2lastad[libad] += 0x10  # arbitrary
+        # A library with more than 256 imports runs past its 0x1000 bytes
+        # area: never hand out an address already bound to another import
+        while ad in self.fad2info:
+            ad += 0x10
+        self.libbase2lastad[libad] = ad + 0x10  # arbitrary
         self.lib_imp2ad[libad][imp_ord_or_name] = ad
 
         name_inv = dict(
